@@ -218,3 +218,115 @@ def gen_triple(r, scenario=None, minor=None):
                 elif q < 0.24: side['cells'].insert(r.randrange(len(side['cells']) + 1), new_cell(r, fr, minor))
                 else: r.choice(SIDE_EDITS)(r, side['cells'][j], fr, r.choice([None, 0, 1, 2]))
     return base, local, remote, scenario
+
+# ------------------------------------------------------------------ concurrent multi-cell insert runs
+# Both sides put a RUN of cells at the same place (plain insert, or in place of a base cell).  A run is described by
+# segments: ('conf', p, q) p local vs q remote mutually dissimilar cells, ('sim',) a pair of similar-but-different cells,
+# ('same',) one identical cell on both sides, ('lonly', p) / ('ronly', q) cells only one side has.  nbdime aligns the two
+# runs by a diff of one against the other and keeps a running local/remote index offset; unequal block lengths before
+# a similar pair are what makes that bookkeeping observable.  Themes differ strongly character-wise so that cells of
+# different themes are dissimilar under nbdime's 0.7 ratio and cells of one theme (one line changed) are similar.
+THEMES = [
+    ['import numpy as np', 'grid = np.linspace(0, 1, 50)', 'noise = np.random.rand(50)', 'signal = grid * 3 + noise', 'print(signal.mean())'],
+    ['def greet(name):', '    msg = "hello, " + name', '    print(msg.upper())', '    return len(msg)', 'greet("world")'],
+    ['with open("input.csv") as fh:', '    rows = [ln.split(",") for ln in fh]', 'header, body = rows[0], rows[1:]', 'print(len(body), "records")'],
+    ['class Account:', '    balance = 0', '    def deposit(self, amt):', '        self.balance += amt', '        return self.balance'],
+    ['for k, v in sorted(table.items()):', '    if v is None: continue', '    print("%-10s %5d" % (k, v))', 'else:', '    print("done")'],
+    ['try:', '    result = 100 / denominator', 'except ZeroDivisionError as exc:', '    result = float("inf")', 'finally:', '    log.append(result)'],
+    ['SELECT_SQL = """', 'SELECT user_id, COUNT(*)', 'FROM events WHERE ts > :since', 'GROUP BY user_id', '"""'],
+    ['%matplotlib inline', 'fig, ax = plt.subplots(figsize=(8, 4))', 'ax.plot(xs, ys, "r--", label="fit")', 'ax.legend(); fig.tight_layout()'],
+    ['assert isinstance(payload, dict)', 'keys = {"alpha", "beta", "gamma"}', 'missing = keys - set(payload)', 'raise KeyError(missing) if missing else None'],
+    ['lambda_ = 0.25', 'weights = [w - lambda_ * g for w, g in zip(weights, grads)]', 'epoch += 1', 'history.append((epoch, loss(weights)))'],
+]
+MD_THEMES = [
+    ['# Introduction', 'This notebook explores the quarterly revenue figures.', 'Sources are listed at the bottom.'],
+    ['## Method', 'We fit a *ridge regression* with cross-validated penalty;', 'residuals are inspected visually.'],
+    ['### TODO', '- [ ] double-check units (kg vs lb)', '- [ ] ask Dana about the 2019 outliers'],
+    ['> "All models are wrong, but some are useful."', '', 'George Box, 1976'],
+]
+
+def _run_cell(kind, theme, tag, minor, ids, final_nl):
+    ls = ['%s  %s %s' % (l, '#' if kind == 'code' else '--', tag) if l else l for l in theme]
+    ids[0] += 1
+    return mk_cell(kind, join_lines(ls, final_nl), 'r%s%02d' % (tag[:1], ids[0]) if minor >= 5 else None)
+
+def gen_insert_runs(r, segments, minor=None, mode=None):
+    """returns (base, local, remote, 'insert_runs:<mode>:<segments>')"""
+    minor = minor if minor is not None else r.choice([5, 5, 4])
+    mode = mode or r.choice(['insert', 'insert', 'replace', 'replace_one_side'])
+    base = gen_base(r, minor, r.choice([1, 2, 3]))
+    code = list(range(len(THEMES))); r.shuffle(code)
+    md = list(range(len(MD_THEMES))); r.shuffle(md)
+    ids = [0]; uniq = [0]; extra = [0]
+    def theme():
+        if md and (not code or r.random() < 0.15): return 'markdown', MD_THEMES[md.pop()]
+        if not code:
+            extra[0] += 1
+            return 'code', ['v%d_%d = compute_%d(%d)' % (extra[0], j, extra[0] * 7 + j, j) for j in range(4)]
+        return 'code', THEMES[code.pop()]
+    lrun, rrun = [], []
+    for seg in segments:
+        uniq[0] += 1
+        nl = r.random() < 0.3
+        if seg[0] == 'conf':
+            for _ in range(seg[1]): k, t = theme(); lrun.append(_run_cell(k, t, 'L%d' % len(lrun), minor, ids, nl))
+            for _ in range(seg[2]): k, t = theme(); rrun.append(_run_cell(k, t, 'R%d' % len(rrun), minor, ids, nl))
+        elif seg[0] == 'lonly':
+            for _ in range(seg[1]): k, t = theme(); lrun.append(_run_cell(k, t, 'L%d' % len(lrun), minor, ids, nl))
+        elif seg[0] == 'ronly':
+            for _ in range(seg[1]): k, t = theme(); rrun.append(_run_cell(k, t, 'R%d' % len(rrun), minor, ids, nl))
+        elif seg[0] == 'same':
+            k, t = theme(); c = _run_cell(k, t, 'S%d' % uniq[0], minor, ids, nl)
+            lrun.append(c); rrun.append(copy.deepcopy(c))
+        elif seg[0] == 'sim':
+            k, t = theme()
+            if len(t) < 4: t = t + ['one more line shared by the pair', 'and a closing line shared by the pair']
+            cl = _run_cell(k, t, 'P%d' % uniq[0], minor, ids, nl); cr = copy.deepcopy(cl)
+            if minor >= 5: ids[0] += 1; cr['id'] = 'rQ%02d' % ids[0]
+            how = r.choice(['rewrite', 'rewrite', 'append', 'one_side'])
+            ll, rl = lines_of(cl['source'].rstrip('\n')), lines_of(cr['source'].rstrip('\n'))
+            cm = '#' if k == 'code' else '--'
+            if how == 'rewrite':
+                i = r.randrange(len(ll)); ll[i] += ' %s local tweak %d' % (cm, uniq[0]); rl[i] += ' %s remote tweak %d' % (cm, uniq[0])
+            elif how == 'append':
+                ll.append('local_extra_%d = 1' % uniq[0]); rl.append('remote_extra_%d = 2' % uniq[0])
+            else:
+                i = r.randrange(len(rl)); rl[i] += ' %s remote tweak %d' % (cm, uniq[0])
+            cl['source'] = join_lines(ll, nl); cr['source'] = join_lines(rl, nl)
+            lrun.append(cl); rrun.append(cr)
+        else:
+            raise ValueError(seg)
+    if r.random() < 0.5: lrun, rrun = rrun, lrun          # which side is "local" must not matter
+    local, remote = copy.deepcopy(base), copy.deepcopy(base)
+    nc = len(base['cells']); pos = r.randrange(nc + 1)
+    if mode == 'insert' or pos == nc:
+        mode = 'insert'
+        local['cells'][pos:pos] = lrun; remote['cells'][pos:pos] = rrun
+    elif mode == 'replace':
+        local['cells'][pos:pos + 1] = lrun; remote['cells'][pos:pos + 1] = rrun
+    else:
+        local['cells'][pos:pos + 1] = lrun; remote['cells'][pos:pos] = rrun
+    name = ','.join(s[0] + ''.join('%d' % x for x in s[1:]) for s in segments)
+    return base, local, remote, 'insert_runs:%s:%s' % (mode, name)
+
+def insert_run_specs(r, n_random):
+    """systematic: dissimilar blocks of every size pair 0..3 x 0..3 followed by a similar pair (and sometimes more);
+    random: arbitrary short segment sequences"""
+    specs = []
+    for p in range(4):
+        for q in range(4):
+            head = [('conf', p, q)] if p and q else [('lonly', p)] if p else [('ronly', q)] if q else []
+            specs.append(head + [('sim',)])
+            tail = r.choice([[('same',)], [('conf', 1, 1)], [('sim',)], [('lonly', 1)], [('ronly', 1)], [('same',), ('sim',)]])
+            specs.append(head + [('sim',)] + tail)
+    for _ in range(n_random):
+        segs = []
+        for _ in range(r.choice([2, 2, 3, 4])):
+            k = r.random()
+            if k < 0.3: segs.append(('conf', r.choice([1, 1, 2, 3]), r.choice([1, 2, 2, 3])))
+            elif k < 0.6: segs.append(('sim',))
+            elif k < 0.75: segs.append(('same',))
+            elif k < 0.87: segs.append(('lonly', r.choice([1, 2])))
+            else: segs.append(('ronly', r.choice([1, 2])))
+        specs.append(segs)
+    return specs
